@@ -24,6 +24,10 @@ PROP = "C13"
 def run_job(job, w):
     from rt import harness, repeating
     harness.setup_process(job["K"])
+    ty = None
+    if job.get("ty_which"):
+        # sleeps at line boundaries inside the engine life-cycle functions / controller callbacks (see rt.harness)
+        ty = harness.install_targeted_yield(p=0.15, max_sleep=0.004, seed=job.get("ty_seed", 0), which=job["ty_which"])
     for sc in job["scenarios"]:
         if "wf" in sc:
             run_controller_scenario(sc, w, job)
@@ -187,6 +191,11 @@ def main():
                 ctl.append({**pair, "pseed": rng.randrange(1 << 30), "jitter_p": rng.choice([0.0, 0.4]),
                             "storm": rng.random() < 0.5})
             j["scenarios"] = ctl
+        for i, j in enumerate(jobs):
+            # every second child: yield injection inside the (repeating) engine life cycle / controller callbacks
+            if (i + rnd) % 2 == 1:
+                j["ty_which"] = ("lifecycle", "controller", "all")[((i + rnd) // 2) % 3]
+                j["ty_seed"] = rnd * 1000 + i
         vlib.fanout("checks.C13", jobs, c, timeout=1500)
         rnd += 1
         if c.violations or c.evaluations >= floor_runs or c.elapsed() > budget:
